@@ -32,8 +32,9 @@
      - DeviceName: at most MaxDeviceNameRuneLen = 128 RUNES, any characters.
 
    Strings are sequences of SYMBOLS, one per character; a symbol stands for its
-   class: lower-case letter ("a" "b" "z"), upper-case letter ("B" "Z"), digit
-   ("7" "0"), hyphen ("-"), other printable ASCII ("_" "." "!" "~" "/"), ASCII
+   class: lower-case letter ("a" "b" "z"), upper-case letter ("A" "B" "Z"), digit
+   ("7" "0" "9"), hyphen ("-"), other printable ASCII ("_" "." "!" "~" "/" and the
+   neighbours of the letter and digit ranges "@" "[" "`" "{" ":"), ASCII
    that is not printable or is white space ("sp" "nl" "del"), and characters
    of two, three and four bytes of UTF-8 ("e2" "e3" "e4").  The harness maps
    symbols to characters and back.
@@ -73,15 +74,15 @@ MaxProfID == 8
 MaxNameRunes == 128
 
 Lowers == {"a", "b", "z"}
-Uppers == {"B", "Z"}
-Digits == {"7", "0"}
-Puncts == {"_", ".", "!", "~", "/"}
+Uppers == {"A", "B", "Z"}
+Digits == {"7", "0", "9"}
+Puncts == {"_", ".", "!", "~", "/", "@", "[", "`", "{", ":"}
 Blanks == {"sp", "nl", "del"}
 Multis == {"e2", "e3", "e4"}
 KnownSyms == Lowers \cup Uppers \cup Digits \cup {"-"} \cup Puncts \cup Blanks \cup Multis
 IsAN(c) == c \in Lowers \cup Uppers \cup Digits
 NBytes(c) == CASE c = "e2" -> 2 [] c = "e3" -> 3 [] c = "e4" -> 4 [] OTHER -> 1
-Lower(c) == CASE c = "B" -> "b" [] c = "Z" -> "z" [] OTHER -> c
+Lower(c) == CASE c = "A" -> "a" [] c = "B" -> "b" [] c = "Z" -> "z" [] OTHER -> c
 
 RECURSIVE SumBytes(_, _)
 SumBytes(s, i) == IF i > Len(s) THEN 0 ELSE NBytes(s[i]) + SumBytes(s, i + 1)
@@ -231,8 +232,8 @@ LongRows == {[pre |-> a, fill |-> c, n |-> k, post |-> b] : a \in Pres, c \in Fi
 Rows == ShortRows \cup LongRows
 Str(r) == r.pre \o Rep(r.fill, r.n) \o r.post
 
-PresQuick == {<<>>, <<"a">>, <<"-">>, <<"_">>, <<"B", "-", "-">>}
-PostsQuick == {<<>>, <<"7">>, <<"-">>, <<"-", "a">>, <<"-", "-", "a">>, <<"_", "a">>, <<"-", "a", "a">>, <<"sp">>}
+PresQuick == {<<>>, <<"a">>, <<"-">>, <<"_">>, <<"A", "-", "-">>}
+PostsQuick == {<<>>, <<"9">>, <<"-">>, <<"-", "a">>, <<"-", "-", "a">>, <<"_", "a">>, <<"-", "a", "a">>, <<"sp">>}
 FillsQuick == {"a", "B", "-", "_", "e2"}
 PresBig == PresQuick \cup {<<"a", "e4", "-">>, <<"a", "-", "-", "-">>, <<"7", "sp">>}
 PostsBig == PostsQuick \cup {<<"-", "-", "-", "a">>, <<"e3", "a">>, <<"del", "Z">>}
